@@ -72,6 +72,13 @@ def series_case(draw, tier):
     tiny_sim = draw(st.integers(0, 7)) == 0
     negative = draw(st.integers(0, 4)) == 0
     tr = draw(trans_spec(negative))
+    if tiny_sim:
+        # (the regime is about the *ratio* of the two spreads: ordinary
+        # flows in ML/d with a spread of hundreds, in untransformed space)
+        negative = False
+        tr = {"name": "Identity", "p": {}}
+        mag = draw(st.sampled_from([1e3, 1e3, 1e5]))
+        spread = max(spread, 1.0)
     nens = draw(st.integers(1, 5))
     ens_e = [[draw(normal) for _ in range(nens)] for _ in range(n)]
     # contamination for excludenull: position, series, kind
